@@ -1,0 +1,81 @@
+//go:build verif
+
+// Contracts checked by /verif/gvc (contract-based deductive verification).
+// This file contains comments only; it is compiled only under the "verif" build tag.
+
+package server
+
+// C05 / C04 / C08 — registerClient: the resume decision, the store hand-over, the stored session and the
+// decision sent to a pending delayed will.
+
+// Plugin callbacks told about the connection / session: they see the client through the Client interface; they are
+// assumed not to touch broker state that these contracts talk about.
+//@ func field (Hooks).OnConnected
+//@ params self, ctx, c
+//@ func field (Hooks).OnSessionCreated
+//@ params self, ctx, c
+//@ func field (Hooks).OnSessionResumed
+//@ params self, ctx, c
+
+//@ func (*client).setConnected inline
+
+// Persistence hands out new, empty stores.
+//@ func (Persistence).NewQueueStore
+//@ params p, cfg, notifier, clientID
+//@ ensures result1 == nil ==> result0 != nil && isfresh(result0) && result0.$inits == 0 && result0.$adds == 0 && result0.$cleans == 0
+//@ func (Persistence).NewUnackStore
+//@ params p, cfg, clientID
+//@ ensures result1 == nil ==> result0 != nil && isfresh(result0)
+
+// The factory of the outbound topic-alias table.
+//@ func type NewTopicAliasManager
+//@ params cfg, maxAlias, clientID
+//@ ensures true
+
+// deadlinePassed: the offline table holds, for a disconnected client, the end of its session's lifetime
+// (time of disconnection + session expiry interval, set by unregisterClient). A client id that is not in the table
+// has a live connection (or none yet): its session has not expired.
+//@ spec func deadlinePassed(srv *server, id string, now time.Time) bool = has(srv.offlineClients, id) && srv.offlineClients[id] < now
+
+//@ func (*server).registerClient
+//@ props C05 C04 C08
+//@ let id = client.opts.ClientID
+//@ let S = srv.sessionStore
+//@ let D = srv.subscriptionsDB
+//@ let H = srv.hooks
+//@ requires [C05] srv != nil && connect != nil && client != nil && client.opts != nil && client.rwc != nil && client.queueNotifier != nil
+//@ requires [C05] srv.sessionStore != nil && srv.subscriptionsDB != nil && srv.persistence != nil && smOK(srv.statsManager) && srv.newTopicAliasManager != nil
+//@ requires [C05] srv.clients != nil && srv.offlineClients != nil && srv.willMessage != nil && srv.queueStore != nil && srv.unackStore != nil
+//@ requires [C05] (connect.Version == 3 || connect.Version == 4 || connect.Version == 5) && client.version == connect.Version && (connect.Version == 5) == (connect.Properties != nil) && (connect.Properties != nil ==> connect.WillProperties != nil)
+//@ requires [C05] srv.config.MQTT.SessionExpiry >= 0
+//@ requires [C08] forall k string :: has(srv.willMessage, k) ==> srv.willMessage[k] != nil
+//@ modifies heap, chanlog, ghost(S.$has), ghost(S.$sets), ghost(S.$lastSet), ghost(S.$removes), ghost(S.$lastRemoved), ghost(D.$unsubAlls), ghost(D.$lastUnsubAll), ghost(H.$st), ghost(H.$stID), ghost(H.$stReason), ghostall(queue.Store.$cleans), ghostall(queue.Store.$inits), ghostall(queue.Store.$lastInitClean), ghostall(unack.Store.$has), ghostall(client.$nout), ghostall(client.$lastOut)
+//@ preserves all(server.*), all(Hooks.*), all(ClientOptions.*), all(packets.Connect.*)
+// T: the state when the decision is taken (srv.mu is held from lockDuplicatedID on; nothing before T changes the tables).
+// the resume decision: an existing session is resumed iff Clean Start is 0, its lifetime (counted from the end of its
+// last connection) has not run out, and its stores are there.
+//@ ensures [C05] err == nil ==> sessionResume == (oldSession != nil && !connect.CleanStart && !(at(statsManager.clientConnected#1, has(srv.offlineClients, id)) && at(statsManager.clientConnected#1, srv.offlineClients[id]) < now) && at(statsManager.clientConnected#1, srv.queueStore[id]) != nil && at(statsManager.clientConnected#1, srv.unackStore[id]) != nil)
+// resume: the session's own queue and unacknowledged-id set are handed to the new connection, re-attached without
+// cleaning; no subscription is touched, no session is terminated.
+//@ ensures [C05 C04] err == nil && sessionResume ==> client.queueStore == at(statsManager.clientConnected#1, srv.queueStore[id]) && client.unackStore == at(statsManager.clientConnected#1, srv.unackStore[id])
+//@ ensures [C05] err == nil && sessionResume ==> client.queueStore.$inits == at(statsManager.clientConnected#1, srv.queueStore[id].$inits) + 1 && !client.queueStore.$lastInitClean && client.queueStore.$cleans == at(statsManager.clientConnected#1, srv.queueStore[id].$cleans)
+//@ ensures [C04] err == nil && sessionResume ==> (forall i uint16 :: client.unackStore.$has[i] == at(statsManager.clientConnected#1, srv.unackStore[id].$has[i]))
+//@ ensures [C05] sessionResume ==> D.$unsubAlls == at(statsManager.clientConnected#1, D.$unsubAlls) && S.$removes == at(statsManager.clientConnected#1, S.$removes) && called(server.sessionTerminatedLocked#1) == 0
+// no resume: an existing session is terminated (once) before the new one is stored; the new connection gets new,
+// empty stores.
+//@ ensures [C05] err == nil && !sessionResume && oldSession != nil && !(!connect.CleanStart && !(at(statsManager.clientConnected#1, has(srv.offlineClients, id)) && at(statsManager.clientConnected#1, srv.offlineClients[id]) < now)) ==> called(server.sessionTerminatedLocked#1) == 1
+//@ ensures [C05] oldSession == nil ==> called(server.sessionTerminatedLocked#1) == 0
+//@ ensures [C05 C04] err == nil && !sessionResume ==> client.queueStore != nil && client.queueStore.$inits == 1 && client.queueStore.$lastInitClean && client.unackStore != nil && (forall i uint16 :: !client.unackStore.$has[i])
+// in every successful case the connection is the one attached to the client id, with the stores it uses; the id is
+// not offline any more; the stored session is the new one.
+//@ ensures [C05] err == nil ==> srv.clients[id] == client && has(srv.clients, id) && srv.queueStore[id] == client.queueStore && srv.unackStore[id] == client.unackStore && !has(srv.offlineClients, id)
+//@ ensures [C05] err == nil ==> client.session != nil && client.session == S.$lastSet && client.session.ClientID == id && S.$has[id]
+// the stored expiry interval: v3 keeps the configured one (Clean Session 0) or none (Clean Session 1); v5 the negotiated one
+//@ ensures [C05] err == nil && connect.Version != 5 && !connect.CleanStart ==> client.session.ExpiryInterval == cfgSecs(srv.config.MQTT.SessionExpiry)
+//@ ensures [C05] err == nil && connect.Version != 5 && connect.CleanStart ==> client.session.ExpiryInterval == 0
+//@ ensures [C05] err == nil && connect.Version == 5 ==> client.session.ExpiryInterval == client.opts.SessionExpiry
+// the stored will is the will of the CONNECT packet
+//@ ensures [C08] err == nil && !connect.WillFlag ==> client.session.Will == nil
+//@ ensures [C08] err == nil && connect.WillFlag ==> client.session.Will != nil && client.session.Will.QoS == connect.WillQos && client.session.Will.Retained == connect.WillRetain && client.session.Will.Topic == string(connect.WillTopic) && client.session.Will.Payload == connect.WillMsg
+//@ ensures [C08] err == nil && connect.Version == 5 && connect.WillProperties.WillDelayInterval != nil ==> client.session.WillDelayInterval == *connect.WillProperties.WillDelayInterval
+//@ ensures [C08] err == nil && (connect.Version != 5 || connect.WillProperties.WillDelayInterval == nil) ==> client.session.WillDelayInterval == 0
